@@ -675,7 +675,7 @@ def run(ctx, args):
         del cases
     vacuity(seen_for_vacuity)
     # include binding: which file an include text denotes (spec/Include), upstream of every cross-file reference
-    n_inc = c05_include.phase(ctx, harness, 2500 if ctx.tier == "quick" else 40000)
+    n_inc = c05_include.phase(ctx, harness, 1500 if ctx.tier == "quick" else 40000)
     ctx.notes.append("include phase: %d directory-tree cases, layer B (parseFileRecursively/searchCircle) => layer A checked "
                      "by TLC on each, real ParseFile/ParseBatchString/CircleDetect judged by Include.tla ObsOK" % n_inc)
     ex = stats.pop("examples", {})
